@@ -61,3 +61,36 @@ func lemmaOrderIndependent(c1, c2 *Candle, tsA, tsB time.Time, oA, hA, lA, cA, o
 //@ requires abs(tsA) != 0 - 62135596800000000000 && abs(tsB) != 0 - 62135596800000000000
 //@ requires abs(c1.OpenTime) != 0 - 62135596800000000000 ==> (abs(c1.OpenTime) <= abs(c1.CloseTime) && c1.EOHLC.Low <= c1.EOHLC.High && abs(c1.OpenTime) != abs(tsA) && abs(c1.OpenTime) != abs(tsB) && abs(c1.CloseTime) != abs(tsA) && abs(c1.CloseTime) != abs(tsB))
 //@ requires lA <= hA && lB <= hB
+
+// C22 — composition across timeframes, for two fine windows with two rows each: feeding a coarse candle the four rows
+// directly gives the same open, high, low, close as feeding it the two fine candles (stamped with their window starts),
+// provided every row of the first fine window is earlier than the second window's start and every row is at or after
+// its own window's start. All five candles start empty.
+func lemmaCompose(direct, viaFine, f1, f2 *Candle, s1, s2, ta, tb, tc, td time.Time, pa, pb, pc, pd float32) {
+	f1.AddCandle(ta, pa)
+	f1.AddCandle(tb, pb)
+	f2.AddCandle(tc, pc)
+	f2.AddCandle(td, pd)
+	direct.AddCandle(ta, pa)
+	direct.AddCandle(tb, pb)
+	direct.AddCandle(tc, pc)
+	direct.AddCandle(td, pd)
+	viaFine.AddCandle(s1, f1.EOHLC.Open, f1.EOHLC.High, f1.EOHLC.Low, f1.EOHLC.Close)
+	viaFine.AddCandle(s2, f2.EOHLC.Open, f2.EOHLC.High, f2.EOHLC.Low, f2.EOHLC.Close)
+	verifAssert(direct.EOHLC.Open == viaFine.EOHLC.Open)   // #open
+	verifAssert(direct.EOHLC.High == viaFine.EOHLC.High)   // #high
+	verifAssert(direct.EOHLC.Low == viaFine.EOHLC.Low)     // #low
+	verifAssert(direct.EOHLC.Close == viaFine.EOHLC.Close) // #close
+}
+
+//@ lemma lemmaCompose
+//@ props C22
+//@ requires direct != nil && viaFine != nil && f1 != nil && f2 != nil && direct != viaFine && direct != f1 && direct != f2 && viaFine != f1 && viaFine != f2 && f1 != f2
+//@ requires abs(direct.OpenTime) == 0 - 62135596800000000000 && abs(viaFine.OpenTime) == 0 - 62135596800000000000 && abs(f1.OpenTime) == 0 - 62135596800000000000 && abs(f2.OpenTime) == 0 - 62135596800000000000
+// every row is accepted by its fine candle and by the coarse candle; the fine starts are accepted by the coarse candle
+//@ requires cdWithin(f1.Duration, abs(ta), loc(ta), abs(f1.StartTime)) && cdWithin(f1.Duration, abs(tb), loc(tb), abs(f1.StartTime)) && cdWithin(f2.Duration, abs(tc), loc(tc), abs(f2.StartTime)) && cdWithin(f2.Duration, abs(td), loc(td), abs(f2.StartTime))
+//@ requires cdWithin(direct.Duration, abs(ta), loc(ta), abs(direct.StartTime)) && cdWithin(direct.Duration, abs(tb), loc(tb), abs(direct.StartTime)) && cdWithin(direct.Duration, abs(tc), loc(tc), abs(direct.StartTime)) && cdWithin(direct.Duration, abs(td), loc(td), abs(direct.StartTime))
+//@ requires cdWithin(viaFine.Duration, abs(s1), loc(s1), abs(viaFine.StartTime)) && cdWithin(viaFine.Duration, abs(s2), loc(s2), abs(viaFine.StartTime))
+// window order: s1 <= rows of window 1 < s2 <= rows of window 2; distinct timestamps; none is the zero time
+//@ requires abs(s1) <= abs(ta) && abs(s1) <= abs(tb) && abs(ta) < abs(s2) && abs(tb) < abs(s2) && abs(s2) <= abs(tc) && abs(s2) <= abs(td) && abs(ta) != abs(tb) && abs(tc) != abs(td)
+//@ requires abs(s1) != 0 - 62135596800000000000 && abs(ta) != 0 - 62135596800000000000 && abs(tb) != 0 - 62135596800000000000 && abs(s2) != 0 - 62135596800000000000 && abs(tc) != 0 - 62135596800000000000 && abs(td) != 0 - 62135596800000000000
